@@ -156,20 +156,39 @@ func confirmAndMinimise(b builds, cfg tierCfg, viol *proto.Record) *proto.Record
 			}
 		}
 	}
-	if !ok {
-		// not reproducible on the first attempt: try a few more times; whatever happens the
+	probabilistic := false
+	if ok {
+		// determinism probe: the same file must give the same observation every time
+		for i := 0; i < 3 && !probabilistic; i++ {
+			g2, ok2 := m.holds(cur)
+			if !ok2 || !sameObserved(got, g2) {
+				probabilistic = true
+			}
+		}
+	} else {
+		// not reproducible on the first attempt: try more often; whatever happens the
 		// observation stands
+		probabilistic = true
 		m.tries = 8
 		for i := 0; i < 32 && !ok; i++ {
 			got, ok = m.holds(cur)
 		}
-		cur.ReplayMode = "probabilistic"
 		if !ok {
+			cur.ReplayMode = "probabilistic"
 			cur.Note += " (observed once; not reproduced in 256 replays - depends on a source outside the simulator's seams, see DESIGN 3.3)"
 			return cur
 		}
 	}
-	_ = got
+	if probabilistic {
+		// the outcome of one and the same replay file varies between processes: the result
+		// depends on a source the simulator does not own (map iteration order, race-build
+		// sync.Pool drops, ...). Class nondeterministic_result; every candidate gets 16 tries.
+		m.tries = 16
+		cur.ReplayMode = "probabilistic"
+		viol = cloneRec(viol)
+		viol.ReplayMode = "probabilistic"
+		logf("the same replay file gives varying observations: treating as nondeterministic (replay is probabilistic)")
+	}
 	for round := 0; round < 3 && !m.exhausted(); round++ {
 		t0, o0, e0 := countOps(cur)
 		// 1. drop whole tasks (keep the slot, empty the ops: indices in events stay valid)
@@ -290,6 +309,9 @@ func confirmAndMinimise(b builds, cfg tierCfg, viol *proto.Record) *proto.Record
 		// fall back to the unminimised record (should not happen with exact replays)
 		cur = cloneRec(viol)
 		cur.Note += " (minimisation result did not re-confirm; unminimised record kept)"
+		if probabilistic {
+			cur.Class = "nondeterministic_result"
+		}
 		return cur
 	}
 	cur.Violations = final.Violations
@@ -298,6 +320,9 @@ func confirmAndMinimise(b builds, cfg tierCfg, viol *proto.Record) *proto.Record
 		if v.Class == viol.Class {
 			cur.Class = v.Class
 		}
+	}
+	if probabilistic && cur.Class == "result_mismatch" {
+		cur.Class = "nondeterministic_result"
 	}
 	t, o, e := countOps(cur)
 	t0, o0, e0 := countOps(viol)
@@ -348,4 +373,18 @@ func compact(r *proto.Record) *proto.Record {
 		c.Run.Policy = proto.PolicyRec{Kind: "script (was " + c.Run.Policy.Kind + ")"}
 	}
 	return c
+}
+
+// sameObserved: two replays of the same file made the same observations.
+func sameObserved(a, b *proto.Record) bool {
+	if a == nil || b == nil || len(a.Violations) != len(b.Violations) {
+		return false
+	}
+	for i := range a.Violations {
+		x, y := a.Violations[i], b.Violations[i]
+		if x.Class != y.Class || x.Op != y.Op || x.Task != y.Task || x.Observed != y.Observed {
+			return false
+		}
+	}
+	return true
 }
